@@ -61,7 +61,7 @@ def attr_extra(ex, env):
     ex.stub(r'OpenTag::is_open$', lambda ex_, st, c, A: BoolV(z3.BoolVal(getattr(strip(ex_, st, A[0]), 'variant', 'OpenAttributes') == 'OpenAttributes')), 'OpenTag::is_open (the opaque record kind counts as open)')
     ex.stub(r'ExprBuilder::<.*>::new$', lambda ex_, st, c, A: Agg('struct', '~builder', None, [none()]), 'ExprBuilder::new: no annotation')
     ex.stub(r'ExprBuilder<.*> as (expr_builder::)?ExprBuilder>::(get_attr|has_attr|like)$|ExprBuilder::<.*>::(get_attr|has_attr|like)$',
-            lambda ex_, st, c, A: (lambda b: Agg('struct', '~typed', None, [b.fields[0], Opaque('node', 'typed node')]) if isinstance(b, Agg) and b.name == '~builder' else None)(strip(ex_, st, A[0])), 'typed node built with the annotation of the builder')
+            lambda ex_, st, c, A: (lambda b: Agg('struct', '~typed', None, [b.fields[0], Agg('struct', '~kids', None, [strip(ex_, st, a) for a in A[1:] if isinstance(strip(ex_, st, a), Agg) and strip(ex_, st, a).name == '~typed'])]) if isinstance(b, Agg) and b.name == '~builder' else None)(strip(ex_, st, A[0])), 'typed node built with the annotation of the builder')
 
 
 def tag_extra(ex, env):
@@ -88,7 +88,7 @@ def tag_extra(ex, env):
     ex.stub(r'EntityKind::is_subtype$', lambda ex_, st, c, A: BoolV(T), 'EntityKind::is_subtype(_, AnyEntity): every entity type is an entity reference')
     ex.stub(r'ExprBuilder::<.*>::new$', lambda ex_, st, c, A: Agg('struct', '~builder', None, [none()]), 'ExprBuilder::new: no annotation')
     ex.stub(r'ExprBuilder<.*> as (expr_builder::)?ExprBuilder>::(get_tag|has_tag|binary_app)$|ExprBuilder::<.*>::(get_tag|has_tag|binary_app)$',
-            lambda ex_, st, c, A: (lambda b: Agg('struct', '~typed', None, [b.fields[0], Opaque('node', 'typed node')]) if isinstance(b, Agg) and b.name == '~builder' else None)(strip(ex_, st, A[0])), 'typed node built with the annotation of the builder')
+            lambda ex_, st, c, A: (lambda b: Agg('struct', '~typed', None, [b.fields[0], Agg('struct', '~kids', None, [strip(ex_, st, a) for a in A[1:] if isinstance(strip(ex_, st, a), Agg) and strip(ex_, st, a).name == '~typed'])]) if isinstance(b, Agg) and b.name == '~builder' else None)(strip(ex_, st, A[0])), 'typed node built with the annotation of the builder')
 
 
 def spec_hastag(kinds, CL, PRIOR, notes=None, env=None):
@@ -145,7 +145,7 @@ def eq_extra(ex, env):
         return [([SEQ], Agg('variant', TA, 'TypecheckSuccess', [A[2], cap(F)], ('expr_type', 'expr_capability'))), ([z3.Not(SEQ)], Agg('variant', TA, 'TypecheckFail', [A[2]], ('expr_recovery_type',)), rej)]
     ex.stub(r'Typechecker::<.*>::enforce_strict_equality$', strict_eq, 'enforce_strict_equality (strict mode): accepts the annotated node, or reports an error and rejects')
     ex.stub(r'ExprBuilder<.*> as (expr_builder::)?ExprBuilder>::(binary_app|is_eq)$|ExprBuilder::<.*>::(binary_app|is_eq)$',
-            lambda ex_, st, c, A: (lambda b: Agg('struct', '~typed', None, [b.fields[0], Opaque('node', 'typed node')]) if isinstance(b, Agg) and b.name == '~builder' else None)(strip(ex_, st, A[0])), 'typed node built with the annotation of the builder')
+            lambda ex_, st, c, A: (lambda b: Agg('struct', '~typed', None, [b.fields[0], Agg('struct', '~kids', None, [strip(ex_, st, a) for a in A[1:] if isinstance(strip(ex_, st, a), Agg) and strip(ex_, st, a).name == '~typed'])]) if isinstance(b, Agg) and b.name == '~builder' else None)(strip(ex_, st, A[0])), 'typed node built with the annotation of the builder')
 
 
 def spec_eq(kinds, CL, PRIOR, notes=None, env=None):
@@ -178,7 +178,7 @@ def is_extra(ex, env):
     ex.stub(r'EntityType as Clone>::clone$', lambda ex_, st, c, A: strip(ex_, st, A[0]), 'EntityType::clone')
     ex.stub(r'EntityKind::is_subtype$', lambda ex_, st, c, A: BoolV(T), 'EntityKind::is_subtype(_, AnyEntity): every entity type is an entity reference')
     ex.stub(r'ExprBuilder<.*> as (expr_builder::)?ExprBuilder>::is_entity_type$|ExprBuilder::<.*>::is_entity_type$',
-            lambda ex_, st, c, A: (lambda b: Agg('struct', '~typed', None, [b.fields[0], Opaque('node', 'typed node')]) if isinstance(b, Agg) and b.name == '~builder' else None)(strip(ex_, st, A[0])), 'typed node built with the annotation of the builder')
+            lambda ex_, st, c, A: (lambda b: Agg('struct', '~typed', None, [b.fields[0], Agg('struct', '~kids', None, [strip(ex_, st, a) for a in A[1:] if isinstance(strip(ex_, st, a), Agg) and strip(ex_, st, a).name == '~typed'])]) if isinstance(b, Agg) and b.name == '~builder' else None)(strip(ex_, st, A[0])), 'typed node built with the annotation of the builder')
 
 
 def spec_is(kinds, CL, PRIOR, notes=None, env=None):
@@ -191,6 +191,51 @@ def spec_is(kinds, CL, PRIOR, notes=None, env=None):
             return z3.Not(env['CONT'])
         return F
     return {'evaluated': [True], 'kinds_ok': [{'Entity', 'Never'}], 'capin': [PRIOR], 'capout': PRIOR, 'type_ok': type_ok}
+
+
+def in_extra(ex, env):
+    """`in`: whether the operands are entity literals / the action variable, and whether an entity type of the left operand can be a descendant of one of the right operand, are free"""
+    LLIT, LACT, RLIT, DESC, ACTK = z3.Bool('left_is_an_entity_literal_or_action'), z3.Bool('left_literal_is_an_action'), z3.Bool('right_is_entity_literals_or_actions'), z3.Bool('a_left_type_can_be_a_descendant_of_a_right_type'), z3.Int('action_in_literals_type')
+    env.update(LLIT=LLIT, LACT=LACT, RLIT=RLIT, DESC=DESC, ACTK=ACTK)
+    env['pre'] += [ACTK >= 0, ACTK <= 2]
+    gid, kidx, names = env['gid'], env['kidx'], env['names']
+    leuid = Opaque('ast::entity::EntityUID', 'the left literal')
+    ex.stub(r'Typechecker::<.*>::euid_from_euid_literal_or_action$', lambda ex_, st, c, A: [([LLIT], some(arc(leuid))), ([z3.Not(LLIT)], none())] if gid(ex_, st, A[1]) in kidx else None, 'euid_from_euid_literal_or_action(left): an entity uid or none (free)')
+    ex.stub(r'Typechecker::<.*>::euids_from_euid_literals_or_actions$', lambda ex_, st, c, A: [([RLIT], some(Agg('struct', '~vec', None, [arc(Opaque('ast::entity::EntityUID', 'a right literal'))]))), ([z3.Not(RLIT)], none())] if gid(ex_, st, A[1]) in kidx else None,
+            'euids_from_euid_literals_or_actions(right): entity uids or none (free)')
+    ex.stub(r'EntityUID::is_action$', lambda ex_, st, c, A: BoolV(LACT), 'EntityUID::is_action of the left literal: free')
+    TA = 'validator::typecheck::typecheck_answer::TypecheckAnswer'
+    BTY = 'validator::types::BoolType'
+
+    def action_in(ex_, st, c, A):
+        st.notes['action_route'] = True
+        alts = []
+        for j, b in enumerate(('True', 'False', 'AnyBool')):
+            alts.append(([ACTK == j], Agg('variant', TA, 'TypecheckSuccess', [Agg('struct', '~typed', None, [some(Agg('variant', 'validator::types::Type', 'Bool', [Agg('variant', BTY, b, [])])), Agg('struct', '~kids', None, [strip(ex_, st, A[4]), strip(ex_, st, A[5])])]), cap(F)], ('expr_type', 'expr_capability'))))
+        return alts
+    ex.stub(r'Typechecker::<.*>::type_of_action_in_entity_literals(::<.*>)?$', action_in, 'type_of_action_in_entity_literals: decided from the action hierarchy of the schema (its own subject); any boolean type')
+    ex.stub(r'Typechecker::<.*>::any_entity_type_decedent_of$', lambda ex_, st, c, A: BoolV(DESC), 'any_entity_type_decedent_of(left types, right types): free')
+    ex.stub(r'EntityKind::is_subtype$', lambda ex_, st, c, A: BoolV(T), 'EntityKind::is_subtype(_, AnyEntity): every entity type is an entity reference')
+    ex.stub(r'ExprBuilder<.*> as (expr_builder::)?ExprBuilder>::is_in$|ExprBuilder::<.*>::is_in$',
+            lambda ex_, st, c, A: (lambda b: Agg('struct', '~typed', None, [b.fields[0], Agg('struct', '~kids', None, [strip(ex_, st, a) for a in A[1:] if isinstance(strip(ex_, st, a), Agg) and strip(ex_, st, a).name == '~typed'])]) if isinstance(b, Agg) and b.name == '~builder' else None)(strip(ex_, st, A[0])), 'typed node built with the annotation of the builder')
+    ex.stub(r'Type as Into<Arc<.*Type>>>::into$|Arc<.*Type> as From<.*Type>>::from$', lambda ex_, st, c, A: arc(strip(ex_, st, A[0])), 'Type -> Arc<Type>')
+    ex.stub(r'Arc<.*EntityUID> as AsRef<.*>>::as_ref$|Arc<.*EntityUID> as Deref>::deref$', lambda ex_, st, c, A: A[0], 'Arc deref')
+
+
+def spec_in(kinds, CL, PRIOR, notes=None, env=None):
+    action_route = bool(notes.get('action_route'))
+
+    def type_ok(rk):
+        if 'Never' in kinds or rk == 'Bool':
+            return T
+        if action_route:
+            return T            # the singleton comes from type_of_action_in_entity_literals (the action hierarchy), outside this node
+        if rk == 'False':       # never true: no entity type of the left operand can be a descendant of an entity type on the right
+            return z3.Not(env['DESC'])
+        return F
+    return {'evaluated': [True, True], 'kinds_ok': [{'Entity', 'Never'}, {'Entity', 'SetEnt', 'Never'}], 'capin': [PRIOR, PRIOR], 'capout': PRIOR, 'type_ok': type_ok,
+            # the action route is taken only for an action literal / variable on the left and literals on the right
+            'sound_extra': z3.Implies(z3.BoolVal(action_route), z3.And(env['LLIT'], env['LACT'], env['RLIT']))}
 
 
 def spec_get(kinds, CL, PRIOR, notes=None, env=None):
@@ -243,12 +288,20 @@ def tag_nodes():
 
 
 def families(ctx, battery):
+    from .c03 import BASE_KINDS
     etype = Opaque('ast::entity::EntityType', 'the tested entity type')
 
     def is_x(ex, env):
         env['etype'] = etype
         is_extra(ex, env)
-    out = [('typing rule of `is`', lambda: control_node(ctx, '`is`', lambda k: Agg('variant', EK, 'Is', [k[0], etype], ('expr', 'entity_type')), 1, spec_is, battery, None, extra=is_x,
+    def in_args(kids, heap):
+        heap['K0'], heap['K1'] = kids[0], kids[1]
+        return [Ref(0, ('local', 'K0')), Ref(0, ('local', 'K1'))]
+    in_node = ('typing rule of `in`', lambda: control_node(ctx, '`in`', lambda k: Agg('variant', EK, 'BinaryApp', [Agg('variant', 'ast::ops::BinaryOp', 'In', []), k[0], k[1]]), 2, spec_in, battery, [BASE_KINDS, BASE_KINDS + ['SetEnt']], extra=in_extra,
+                                                          accept_when=lambda env: ('the left operand is an entity and the right one an entity or a set of entities', z3.And(env['K'][0] == KINDS.index('Entity'), z3.Or(env['K'][1] == KINDS.index('Entity'), env['K'][1] == KINDS.index('SetEnt')))),
+                                                          fname='typecheck_in', nargs=6, extra_args=in_args,
+                                                          why='the typing rule of `in` gives a membership test the type False although it can be true, or accepts operands that are not entities'))
+    out = [in_node, ('typing rule of `is`', lambda: control_node(ctx, '`is`', lambda k: Agg('variant', EK, 'Is', [k[0], etype], ('expr', 'entity_type')), 1, spec_is, battery, None, extra=is_x,
                                                          accept_when=lambda env: ('the operand is an entity', env['K'][0] == KINDS.index('Entity')),
                                                          why='the typing rule of `is` gives a type test a singleton type it does not always have, or accepts a non-entity operand')),
            ('typing rule of `==`', lambda: control_node(ctx, '`==`', lambda k: Agg('variant', EK, 'BinaryApp', [Agg('variant', 'ast::ops::BinaryOp', 'Eq', []), k[0], k[1]]), 2, spec_eq, battery, None, extra=eq_extra,
